@@ -275,6 +275,7 @@ API_SURFACE = [
  {"api": "tlx::parallel_mergesort / stable_parallel_mergesort (comp, num_threads 1..9,13, MWMSA_SAMPLING | MWMSA_EXACT; no merge-algorithm parameter exists: the per-thread merges use MWMA_ALGORITHM_DEFAULT) as a second consumer of the same merge kernels, both element kinds", "called": True, "by": "gen_ms ('ms' lines), judged against the (stable) sort by the Python reference; C06 owns the property"},
  {"api": "OpenMP variant of parallel_multiway_merge_base (#if defined(_OPENMP))", "called": False, "by": "the check builds without -fopenmp, as the repo's default build does; the std::thread variant is the one exercised (the two bodies are textually the same computation)"},
  {"api": "HUGE TOTALS: k = 1..4 sequences of uint8_t in sparse MAP_NORESERVE mappings whose lengths sum to 2^31-1, 2^31, 2^31+r, 2^32-1, 2^32, 2^32+size, 2.8e9, 2^32+2^31+7 (one huge + short/empty ones | equal parts | two huge), std::greater on descending data, prefix of size 0..2000, 1..4 threads, all four entry points, both splitting requests (MWMSA_SAMPLING is served by the exact splitter for a prefix), all merge algorithms", "called": True, "by": "gen_huge ('huge' lines, 12-byte binary only); judged by the Python reference and against the Coq model run on the sequences truncated to their first `size` elements (an element beyond position `size` of a sequence cannot be among the first `size` merged elements; the truncation argument itself is not a Coq theorem)"},
+ {"api": "ThreadSanitizer build (-fsanitize=thread -DNDEBUG) of the same harness, every tier: k = 1..6 non-empty sequences x every MultiwayMergeAlgorithm x both splitting requests x stable/unstable (sentinel and non-sentinel entry points) x three thread counts from 2..8; thorough tier additionally the first 6000 generated parallel cases", "called": True, "by": "gen_tsan_sweep (264..288 cases); every TSan report is a VIOLATION with the running case as replay"},
  {"api": "regimes: no sequences | all sequences empty | empty sequences between non-empty ones | size = 0 | size < p | p > total | one long among short sequences | heavy duplicates across split points (1..3 distinct keys)", "called": True, "by": "corpus + generator shapes 0-3"},
 ]
 
